@@ -436,6 +436,41 @@ def check_shared_components(acc):
                           {'part': 'shared-components'})
             return
 
+    # one StaticFileRoute (no explicit mimetype) bound into two applications; the first request anywhere is a
+    # revalidation answered 304, a plain GET, or a HEAD - afterwards both applications serve the file like a fresh twin
+    import time as _time
+    from clastic import StaticFileRoute
+    css = os.path.join(os.path.dirname(os.path.abspath(__file__)), '..', 'evidence')
+    import tempfile, shutil
+    tmpd = tempfile.mkdtemp(prefix='c11-file-')
+    try:
+        fpath = os.path.join(tmpd, 'style.css')
+        with open(fpath, 'w') as f:
+            f.write('body { color: red }\n')
+        future = _time.strftime('%a, %d %b %Y %H:%M:%S GMT', _time.gmtime(_time.time() + 86400))
+        for first in ('conditional-304', 'get', 'head'):
+            for first_app in ('A', 'B'):
+                rt = StaticFileRoute('/style.css', fpath)
+                apps = {'A': Application([rt], middlewares=[HTTPCacheMiddleware(max_age=30)]), 'B': Application([rt])}
+                def observe(app, path, hdrs=None, _o=observe):
+                    # (Expires moves with the clock: status, type and body are what is compared)
+                    o = _o(app, path, hdrs)
+                    return (o[0], [kv for kv in o[1] if kv[0] in ('Content-Type', 'Content-Length', 'Last-Modified')], o[2], o[3])
+                want = observe(Application([StaticFileRoute('/style.css', fpath)]), '/style.css')
+                wsgi.call(apps[first_app], '/style.css', 'HEAD' if first == 'head' else 'GET',
+                          headers={'If-Modified-Since': future} if first == 'conditional-304' else None)
+                got = observe(apps['B'], '/style.css')
+                got_late = observe(Application([rt]), '/style.css')
+                acc.transitions += 4
+                acc.validated += 2
+                for what, g in (('application B', got), ('an application the route is bound into afterwards', got_late)):
+                    if g != want:
+                        acc.violation('C11:shared-component:file-route', 'one StaticFileRoute in two applications, first request (%s) to %s: '
+                                      '%s then answers %r, a fresh twin %r' % (first, first_app, what, g[:2], want[:2]), {'part': 'shared-components'})
+                        return
+    finally:
+        shutil.rmtree(tmpd, ignore_errors=True)
+
     class Extra(MetaPeripheral):
         title = 'Extra'
         group_key = 'zq_extra'
